@@ -94,6 +94,7 @@ class Unit:
         self.loopstarts = {}
         self.afters = []
         self.afterloops = {}
+        self.atend = None
         self.ats = []
         self.params_drop, self.params_add = [], []
         self.header_lines = []
@@ -509,6 +510,12 @@ class Generator:
             if k >= len(frag_loops):
                 raise GenError(f'lost-anchor: loop #{k} in fragment of {u.fnpath} (has {len(frag_loops)})')
             add_edit(frag_loops[k]['span'][1], frag_loops[k]['span'][1], ('SPLICE', [(tl, '\n' + line) if i == 0 else (tl, line) for i, (tl, line) in enumerate(text)]), 'afterloop')
+        if u.atend is not None:
+            # proof text spliced as the last thing in the function body (anchored to the body, not to its last statement);
+            # only for bodies that end in a statement, not in a tail expression
+            if u.kind != 'fn' or src[span[1] - 1:span[1]] != b'}':
+                raise GenError(f'unsupported: atend needs a whole-function unit in {u.fnpath}')
+            add_edit(span[1] - 1, span[1] - 1, ('SPLICE', [(tl, '\n' + line) if i == 0 else (tl, line) for i, (tl, line) in enumerate(u.atend)]), 'atend')
         for (prefix, k, text) in u.afters:
             # proof text spliced right AFTER a statement (for facts about what the statement just did)
             pre = normtok(prefix)
@@ -696,6 +703,9 @@ class Generator:
                     lst = []
                     cur.ats.append((args[1], k, lst))
                     pending = lst
+                elif d == 'atend':
+                    cur.atend = []
+                    pending = cur.atend
                 elif d == 'afterloop':
                     k = int(args[1])
                     cur.afterloops[k] = []
